@@ -8,7 +8,8 @@ def parseColType : String → Option (Option ColType)
   | "f32" => some (some .f32) | "f64" => some (some .f64) | "int" => some (some .int)
   | "i64" => some (some .i64) | "i32" => some (some .i32) | "i16" => some (some .i16)
   | "i8" => some (some .i8) | "u8" => some (some .u8) | "u16" => some (some .u16)
-  | "u32" => some (some .u32) | "u64" => some (some .u64) | "none" => some none
+  | "u32" => some (some .u32) | "u64" => some (some .u64) | "bool" => some (some .other)
+  | "none" => some none
   | _ => none
 
 /-- `b1;b2;…`, each `v,v,…` or `-` -/
@@ -63,12 +64,8 @@ def aggvOp : Op := fun args =>
       let batches := bs.map (mkBatch ty)
       let pre := prefixes [] bs
       let firstNonEmpty := match bs with | b :: _ => !b.isEmpty | [] => false
-      let hyps : List String :=
-        match ty with
-        | some t => if !t.handled && bs.any (fun b => !b.isEmpty) then
-            [if fn == "avg" then "unhandled_column_type_avg" else "unhandled_column_type"] else []
-        | none => []
-      let h := "\tH:" ++ ",".intercalate (if fn == "count" then [] else hyps)
+      -- no `_partial` hypothesis is left for these ops: every numeric type is in the specification
+      let h := "\tH:"
       match fn with
       | "count" =>
         let m := showRes (fun (i : Int) => toString i) (runAgg countAccum id countNew batches)
@@ -78,7 +75,7 @@ def aggvOp : Op := fun args =>
         let isMin := fn == "min"
         let m := showRes (fun (s : MinMax) => showF b32 s.v)
           (runAgg (if isMin then minAccum else maxAccum) id minMaxNew batches)
-        match ty with
+        match ty.filter ColType.numeric with
         | some t =>
           let imgs := pre.map (fun p => p.map (toF32 t))
           let anyNaN := imgs.any (fun p => p.any (isNaN b32))
@@ -90,7 +87,7 @@ def aggvOp : Op := fun args =>
         | none => s!"M:{m}{h}"
       | "avg" =>
         let m := showRes (fun (s : Avg) => showF b64 (avgOutput s)) (runAgg avgAccum id avgNew batches)
-        match ty with
+        match ty.filter ColType.numeric with
         | some t =>
           if firstNonEmpty then
             let s := joinOut (pre.map (fun p => showF b64 (specAvg (p.map (toF32 t)))))
